@@ -95,7 +95,23 @@ _PM_TRUST = ["hooked RNG + Lean draw decoder (gen_range for BigInt = gen_bigint_
              "primality of the modulus for the oracle: reference test below 2^64, fixed list of known primes above (2^64+13, 2^89-1, 2^107-1, 2^127-1)",
              "private stages (squarefree, degree, final_split*, hensel_lift, find_linear_factors_impl) are exercised only through the public entry points"]
 
+def _c18_rule(op, args, impl):
+    # non-trivial: at least a 2 x 2 matrix argument with a non-zero entry
+    a = args[0]
+    return ";" in a and "," in a and any(ch in a for ch in "123456789")
+
+
 INFO = {
+    "C18": {
+        "rule": "every matrix over {-1,0,1} of the small shapes: 1x1 (entries -2..2), 2x2, 3x3 through determinant, inv and solve_linear_system (2x2 with every right-hand side over {-1,0,1}); iim for M 1x1..2x3 with every V of one row (and 1x2 with two rows), sampled 3x2, 2x3 with two rows, 3x3, 2x4 (thorough: denser); supplement_basis for 1x1..3x3, 2x4, 1x5, sampled 3x4; image_mod_p for all 0/1 matrices up to 4x3/3x4 over F_2, all residue matrices up to 3x3 over F_3, 2x2 and sampled 3x2 over F_5, {-1,0,1} 3x3 for p = 5, 7; mul_inv_from_right_exact for all pairs of 2x2 matrices over {-1,0,1} and 1x1 in [-6,6]. Then seeded random: square matrices up to 7x7 with fractions (numerators up to 2^40, thorough 2^90; denominators up to 30): plain, forced rank deficiency (rows = rational combinations of r others, shuffled), zero row/column, sparse, staircase with the pivot of an early row in a late column, signed permutation-like matrices; right-hand sides random or in the row space; n x m (n <= 5, m <= 7, mostly m > n) for iim and supplement_basis in the same styles and with the columns reversed, V rows inside the span, perturbed by one coordinate, or random; F_p matrices up to 7x7 for p in {2,3,5,7,101} with dependent, repeated and proportional rows, balanced representatives, and unreduced entries (model comparison only); exact right division on A = C*B, on A = C*B + E_rs, on random A, with triangular and singular B, up to 6x6 with 40-bit entries. Shapes outside the statement (non-square, width mismatch, empty) and moduli that are not prime (0, 1, 4, 6, 9, -5) are run for the panic/truncation behaviour of the model only. Non-trivial: first argument has >= 2 rows, >= 2 columns and a non-zero entry; distinct = distinct (op,args).",
+        "rulefn": _c18_rule,
+        "trusted": ["Vec<Vec<Ratio<BigInt>>> / Vec<Vec<BigInt>> identified with List (List Rat) / List (List Int); Ratio<BigInt> is always reduced with positive denominator, like core Rat; toM maps rectangular lists to Mathlib matrices",
+                    "the model answers `inconclusive ragged` on arguments whose rows have different lengths (never generated)"],
+        "gaps": ["image_mod_p (output rows are input rows, independent mod p, of the rank of the input mod p): certified on every explored case by Spec.LinAlg (sub-multiset test and rank over F_p by an independent row reduction with the proved modular inverse); theorem outstanding"],
+        "assumptions": ["square n x n input for determinant / inv / solve_linear_system (b of length n) / mul_inv_from_right_exact (n >= 1); rectangular n x m and r x m arguments with n, r >= 1 for iim, k x n with k >= 1 for supplement_basis; other shapes are run through the correspondence only"],
+        "level_text": "Theorems for every square rational (integer) matrix about the Lean model of determinant.rs, matrix.rs, solve_linear_system.rs and triangular.rs: determinant = Matrix.det; inv returns B with B*A = 1 exactly when det A != 0 and MatrixNotInvertible otherwise; solve_linear_system returns x with x*A = b exactly when det A != 0 and MatrixNotInvertible otherwise; mul_inv_from_right_exact returns C with C*B = A, errs only for singular B and asserts only when no integer quotient exists; iim (n x m, r x m, any m) reports LinearlyDependent exactly for dependent rows of M and otherwise returns X with X*M = V or NotInImage according to whether every row of V is in the span; supplement_basis (k x n) returns an invertible n x n matrix starting with the input rows exactly when they are independent, InsufficientRank otherwise. image_mod_p: model tied to subspace.rs by differential testing and every implementation output decided by an independent Lean oracle (rank over F_p by a separate row reduction). All routines are additionally cross-checked per case by independent oracles (cofactor determinant, adjugate inverse, ranks over Q, exact products).",
+        "level_note": "Trusted: Lean kernel + 3 standard axioms; Mathlib Matrix/det; BigInt/BigRational identified with Int/Rat; correspondence generator coverage. Partial: the image_mod_p clause is certified per explored case, not proved.",
+    },
     "C12": {
         "rule": "primitives of prim.rs (divrem, gcd, modpow, ext-gcd witness, x-a division, evaluation) on random and edge inputs; find_linear_factors on every polynomial up to a degree bound over F_2..F_13, random f of degree <= 12 over primes up to 2^61 (and beyond 2^64) built as c*prod (x-r_i)^e_i * g with g root-free by construction; scripted histories where the drawn shift is a root and where draws never split; the random history of every run is replayed into the model. Non-trivial: polynomial of degree >= 2; distinct = distinct (op,args incl. history).",
         "rulefn": _pm_rule,
